@@ -13,6 +13,7 @@ import (
 	"github.com/bitcoin-sv/block-headers-service/domains"
 	"github.com/bitcoin-sv/block-headers-service/internal/chaincfg/chainhash"
 	"github.com/bitcoin-sv/block-headers-service/internal/chaincfg"
+	exppeer "github.com/bitcoin-sv/block-headers-service/internal/transports/p2p/peer"
 	"github.com/bitcoin-sv/block-headers-service/internal/wire"
 	"github.com/bitcoin-sv/block-headers-service/repository"
 	"github.com/bitcoin-sv/block-headers-service/service"
@@ -100,6 +101,15 @@ func run(rig *core.Rig, fr *faultRepo, u *core.Universe, seq []int, policy strin
 		rec := &recChains{inner: rig.Svc.Chains, u: u, res: &res, rig: rig}
 		rig.Svc.Chains = rec
 		d := p2psync.VerifNewHeadersDriver(rig.Svc, &chaincfg.MainNetParams, nil, core.Quiet())
+		d.Deliver(wireHeaders(u, seq))
+		res.writes = fr.log
+		return res
+	}
+	if policy == "experimental-engine" {
+		rec := &recChains{inner: rig.Svc.Chains, u: u, res: &res, rig: rig}
+		rig.Svc.Chains = rec
+		d := exppeer.VerifNewHeadersDriver(rig.Svc.Headers, rec, &chaincfg.MainNetParams, nil, core.Quiet())
+		defer d.Close()
 		d.Deliver(wireHeaders(u, seq))
 		res.writes = fr.log
 		return res
@@ -283,6 +293,10 @@ func TestCheck(t *testing.T) {
 	rep := core.NewReport(env, "crashwalk")
 	rep.Rule = "one evaluation = one (history, write index, fault mode, redelivery order) execution: run to the fault, restart with database.Init, check, redeliver, compare with the reference model; non-trivial = the history contains a reorganisation (the fault can fall between its transactions) or the fault hits a header that later headers build on; distinct by that tuple"
 	defer func() { rep.Write(env.Out) }()
+	if env.Prop == "C17" {
+		runC17(env, rep)
+		return
+	}
 	if env.Replay != "" {
 		replay(t, env, rep)
 		return
@@ -339,7 +353,7 @@ func history(rep *core.Report, u *core.Universe, seq []int, allRedel, reorgOnly 
 		redels = perms(len(seq))
 	}
 	for at := 1; at <= writes; at++ {
-		for _, mp := range [][2]string{{"kill", "stop"}, {"fail", "stop"}, {"fail", "legacy-engine"}} {
+		for _, mp := range [][2]string{{"kill", "stop"}, {"fail", "stop"}, {"fail", "legacy-engine"}, {"fail", "experimental-engine"}} {
 			for _, rd := range redels {
 				sc := scenario{B: u.B, BStr: u.B.String(), Seq: seq, Mode: mp[0], At: at, Policy: mp[1], Redel: rd, Engine: "crashwalk"}
 				one(rep, u, sc, isReorg, r0.writes[at-1])
@@ -394,13 +408,19 @@ func one(rep *core.Report, u *core.Universe, sc scenario, isReorg bool, writeNam
 
 	// redelivery of the full history
 	var stuck []string
-	if sc.Policy == "legacy-engine" {
+	if sc.Policy == "legacy-engine" || sc.Policy == "experimental-engine" {
 		var rr runResult
 		rr.ackRows = map[string]core.Row{}
 		rec := &recChains{inner: rig2.Svc.Chains, u: u, res: &rr, rig: rig2}
 		rig2.Svc.Chains = rec
-		d := p2psync.VerifNewHeadersDriver(rig2.Svc, &chaincfg.MainNetParams, nil, core.Quiet())
-		d.Deliver(wireHeaders(u, sc.Redel))
+		if sc.Policy == "legacy-engine" {
+			d := p2psync.VerifNewHeadersDriver(rig2.Svc, &chaincfg.MainNetParams, nil, core.Quiet())
+			d.Deliver(wireHeaders(u, sc.Redel))
+		} else {
+			d := exppeer.VerifNewHeadersDriver(rig2.Svc.Headers, rec, &chaincfg.MainNetParams, nil, core.Quiet())
+			d.Deliver(wireHeaders(u, sc.Redel))
+			d.Close()
+		}
 		rep.Transitions += int64(len(rr.codes))
 		for i, c := range rr.codes {
 			if c != "stored" && c != "duplicate" {
